@@ -40,7 +40,7 @@ var listedLossy = map[string]string{
 }
 
 func runC03(c *core.Ctx) {
-	c.Explanation = "Structural necessary conditions of meaning preservation, decided on the typed AST and SSA of formatter/ast/parser: (fmt.dispatch) every node kind the parser can construct is handled by a type-switch arm of Format/formatStatement/formatExpression or by a printer that reads its fields; (fmt.fields) every semantic field of every constructible node kind (struct fields identified by *types.Var; the embedded Meta and the option-normalised/derived fields excepted, one reason each) is read by the formatter or by a non-lossy ast renderer it calls statically — a field nobody reads cannot survive formatting; (fmt.lossy) the formatter prints nothing through a lossy ast renderer: no dynamic String() on ast.Expression/Statement/Node, and static String() only on node types whose renderer reads all semantic fields and itself calls only such renderers ((*ast.String).String is listed: it prints the decoded value); (fmt.optnil) fields the grammar leaves nil are tested before being handed to a printer that dereferences them; (fmt.chunks) chunk conservation in the line-breaking pass: every chunk dequeued by nextChunk() and every *Chunk parameter of a text-returning function has, on every path to the next dequeue / return, its text written, or is handed to an emitter, or was compared equal to the constant written in its place; String() writes every chunk unconditionally. (fmt.linecmt) wherever the line-breaking pass writes the text of a chunk that may be a line comment (no dominating isLineComment()/type test, also through *Chunk parameters judged over all call sites), a line feed follows in the same block; (fmt.inlinecmt) comments are rendered only by the formatter's own comment printer (no call of a comment-bearing ast renderer, whose inline mode joins with a blank), that printer writes the caller's separator only behind a test for the block-comment marker / the line-break switch (a line comment gets a line feed), and only two named callers switch the line feed off; (fmt.juxta) the `+` of a concatenation is omitted (explicit_string_concat off) only under a predicate over the right operand that answers true only for node kinds starting with a token the parser registers for implicit concatenation (tables extracted from registerExpressionParsers on every run). Decides which information the printers touch on every path, not the text they produce. (fmt.alias) no slice is emptied with [:0] and refilled while an earlier value of the same variable is retained elsewhere (shared backing array; a known-bad canary must fire on every run); (fmt.deadfield) every field of a formatter-local record that is written is also read."
+	c.Explanation = "Structural necessary conditions of meaning preservation, decided on the typed AST and SSA of formatter/ast/parser: (fmt.dispatch) every node kind the parser can construct is handled by a type-switch arm of Format/formatStatement/formatExpression or by a printer that reads its fields; (fmt.fields) every semantic field of every constructible node kind (struct fields identified by *types.Var; the embedded Meta and the option-normalised/derived fields excepted, one reason each) is read by the formatter or by a non-lossy ast renderer it calls statically — a field nobody reads cannot survive formatting; (fmt.lossy) the formatter prints nothing through a lossy ast renderer: no dynamic String() on ast.Expression/Statement/Node, and static String() only on node types whose renderer reads all semantic fields and itself calls only such renderers ((*ast.String).String is listed: it prints the decoded value); (fmt.optnil) fields the grammar leaves nil are tested before being handed to a printer that dereferences them; (fmt.chunks) chunk conservation in the line-breaking pass: every chunk dequeued by nextChunk() and every *Chunk parameter of a text-returning function has, on every path to the next dequeue / return, its text written, or is handed to an emitter, or was compared equal to the constant written in its place; String() writes every chunk unconditionally. (fmt.linecmt) wherever the line-breaking pass writes the text of a chunk that may be a line comment (no dominating isLineComment()/type test, also through *Chunk parameters judged over all call sites), a line feed follows in the same block; (fmt.inlinecmt) comments are rendered only by the formatter's own comment printer (no call of a comment-bearing ast renderer, whose inline mode joins with a blank), that printer writes the caller's separator only behind a test for the block-comment marker / the line-break switch (a line comment gets a line feed), and only two named callers switch the line feed off; (fmt.juxta) the `+` of a concatenation is omitted (explicit_string_concat off) only under a predicate over the right operand that answers true only for node kinds starting with a token the parser registers for implicit concatenation (tables extracted from registerExpressionParsers on every run). Decides which information the printers touch on every path, not the text they produce. (fmt.alias) no slice is emptied with [:0] and refilled while an earlier value of the same variable is retained elsewhere (shared backing array; a known-bad canary must fire on every run); (fmt.deadfield) every field of a formatter-local record that is written is also read. (fmt.textrewrite) no replacement and no split-into-lines-and-reindent runs over rendered code, which would rewrite the inside of long strings and block comments (three recorded findings); the line-comment predicate of a chunk scans its whole text."
 	c.NotCovered = []string{"that inserted line breaks are legal at their position", "SortDeclaration semantics", "a field read in one printing context but dropped in another (IfStatement as head and as Another[i]) is masked", "value-level errors in a printer that still reads the field"}
 	prog := c.Prog
 	u := newAstUniverse(prog)
